@@ -50,10 +50,10 @@ TEXTS = {
         "technique": "static taint analysis under a mode scenario + AST pair rules for masks and permute/reshape",
     },
     "C19": {
-        "level_text": "ONLY the structural last sentence of C19 is decided ('results carry the dtype of the inputs'; a .double() model evaluates without a dtype error): a dtype-provenance abstract interpretation over every forward/inverse/accessor of transforms, log_prob of distributions and the spline functions reports (DT-MIX) a default-dtype tensor meeting a model-dtype tensor in a non-promoting operand position and (DT-RESULT) a returned tensor whose dtype can only come from a default-dtype constructor or float32 cast. The main body -- float32 agrees with float64 to single-precision accuracy scaled by conditioning, finiteness on moderate inputs -- is numerical analysis about cancellation in specific formulas; no sound static argument in reach bounds it, and it is NOT claimed.",
+        "level_text": "ONLY two structural clauses of C19 are decided. (1) NUM-LOGSPACE, a necessary condition of 'stays finite': no tensor log is taken of a prod / cumprod / det reduction (log-dets are sums of logs; a product of 50 factors 0.1 is 0.0 in float32). (2) The last sentence ('results carry the dtype of the inputs'; a .double() model evaluates without a dtype error): a dtype-provenance abstract interpretation over every forward/inverse/accessor of transforms, log_prob of distributions and the spline functions reports (DT-MIX) a default-dtype tensor meeting a model-dtype tensor in a non-promoting operand position and (DT-RESULT) a returned tensor whose dtype can only come from a default-dtype constructor or float32 cast. The main body -- float32 agrees with float64 to single-precision accuracy scaled by conditioning, finiteness on moderate inputs -- is numerical analysis about cancellation in specific formulas; no sound static argument in reach bounds it, and it is NOT claimed.",
         "design_ref": "DESIGN.md 1.8, 2.C19",
         "level_note": "Trusted: T-OPS same-dtype-only operand table and torch promotion order; inputs and parameters share one floating dtype; A-NET, A-UMNN. Definite-error policy: only operands whose provenance set is exactly {D} / exactly {M} are reported.",
-        "technique": "static dtype-provenance abstract interpretation (partial claim: dtype clause only; numeric agreement declined)",
+        "technique": "static dtype-provenance abstract interpretation + log-of-product lint over resolved locals (partial claim: dtype clause and log-space clause only; numeric agreement declined)",
     },
     "C03": {
         "level_text": "Necessary conditions only: the three ways the code can assemble a wrong density that shape-only tests cannot see. Flow._log_prob is expanded symbolically on every path and must be exactly +base.log_prob(noise) + logabsdet with both components from one forward call on the inputs and the same embedded context; the Gaussian bases' log-densities must have exactly the negative quadratic / log-std / shape-only normaliser terms. That the density integrates to one is an integral over the whole input space and is NOT decided; the 'onto' half for bounded transformers is referred to the C09 rules.",
@@ -62,7 +62,7 @@ TEXTS = {
         "technique": "static path-wise symbolic expansion + signed-sum normal form (term accounting); partial claim",
     },
     "C04": {
-        "level_text": "Necessary conditions for row-by-row agreement of samples and densities: symbolic expansion proves sample_and_log_prob returns (inverse(noise)[0], base_lp - inverse(noise)[1]) from one base draw and one inverse call, Flow.sample inverts base noise, and at the seven sites that merge a [rows, n] pair the context/parameters are replicated row-major and split back as [rows, n] (tiling is a definite error). The statistical half -- samples follow exp(log_prob) -- is out of reach and NOT claimed.",
+        "level_text": "Necessary conditions for row-by-row agreement of samples and densities: symbolic expansion proves sample_and_log_prob returns (inverse(noise)[0], base_lp - inverse(noise)[1]) from one base draw and one inverse call, Flow.sample inverts base noise, all three entry points condition the base distribution and the transform on one and the same function of the context (SLP-CTX), and at the seven sites that merge a [rows, n] pair the context/parameters are replicated row-major and split back as [rows, n] (tiling is a definite error). The statistical half -- samples follow exp(log_prob) -- is out of reach and NOT claimed.",
         "design_ref": "DESIGN.md 2.C04",
         "level_note": "Trusted: helper semantics of repeat_rows/merge_leading_dims/split_leading_dim (checked under C20), the transform contract, A-API.",
         "technique": "static symbolic expansion with signed-sum normal form + call-site pairing rule for row replication",
@@ -80,7 +80,7 @@ TEXTS = {
         "technique": "static abstract interpretation (name/attribute resolution, None-ness dataflow) + signed-sum term accounting",
     },
     "C08": {
-        "level_text": "Strong structural check for all nestings, stage counts, shapes and split dimensions: _cascade is expanded symbolically (outputs threaded, log-dets summed from zeros, sequence iterated in order), inverse is shown to cascade (t.inverse for t in reversed list), InverseTransform swaps directions with arguments passed through, and the multiscale transform's constructor bookkeeping, forward and inverse are cross-checked as a pair (ceil/floor sizes at split_dim-1 vs torch.chunk at split_dim, emitted-first/carried-second vs cat order, slice boundaries = cumulative recorded sizes, reverse consumption, unsplit last stage, log-det accumulation, single append). Order is unobservable to the suite (its parts commute); here it is decided from the code. Numeric equality with hand-chained parts follows given T-OPS and is not separately established.",
+        "level_text": "Strong structural check for all nestings, stage counts, shapes and split dimensions: _cascade is expanded symbolically (outputs threaded, log-dets summed from zeros, sequence iterated in order), forward / inverse / the constructor's stored list are put into a sequence normal form (base list, reversed?, element map) so that inverse must be (inverse, reversed) of the stored list in any spelling and every element-wise inversion of a part list anywhere in base.py must come with a reversal, InverseTransform swaps directions with arguments passed through, and the multiscale transform's constructor bookkeeping, forward and inverse are cross-checked as a pair (ceil/floor sizes at split_dim-1 vs torch.chunk at split_dim, emitted-first/carried-second vs cat order, slice boundaries = cumulative recorded sizes, reverse consumption, unsplit last stage, log-det accumulation, single append). Order is unobservable to the suite (its parts commute); here it is decided from the code. Numeric equality with hand-chained parts follows given T-OPS and is not separately established.",
         "design_ref": "DESIGN.md 2.C08",
         "level_note": "Trusted: T-OPS (torch.chunk sizes, cat/reshape/view semantics), the Transform contract of the parts, A-API (add_transform is called num_transforms times as documented).",
         "technique": "static symbolic expansion + pair rules (constructor/forward/inverse) with alpha-normalised expressions",
@@ -116,10 +116,10 @@ TEXTS = {
         "technique": "static symbolic expansion + signed-leaf normal forms (pair rule) + polynomial normal form + sign lattice",
     },
     "C11": {
-        "level_text": "Structural agreement of the linear-family accessors for every parameter value: accessor completeness over the class hierarchy, forward/inverse log-dets equal +/- logabsdet(), logabsdet() sums the log of the very diagonal that the shared factor constructors put into every view of the map, that diagonal is positive by the sign lattice, and the Householder inverse is the exact reversal of the same reflections. Numeric inverse accuracy and usability for every accepted size are value facts and NOT decided; the operator-word check (LIN-WORD) of the design is not implemented in this round.",
-        "design_ref": "DESIGN.md 2.C11",
-        "level_note": "Trusted: A-CFG (eps > 0), T-OPS (softplus/exp positive). Some slots are compared as normalised statement text of the factor constructors (listed in the rule source).",
-        "technique": "static call-graph completeness + provenance/slot agreement across sibling accessors + sign lattice",
+        "level_text": "Algebraic agreement of the linear-family accessors for every parameter value: every accessor, both no-cache passes and both combined accessors of LU, QR, SVD and naive are interpreted, without running them, in the free group with transposition over the factor matrices (LIN-WORD): with W = weight(), weight_inverse() = W^-1, forward = X W^T + b, inverse = (X - b) W^-T, combined accessors return W / W^-1, each triangular solve is given the flags of its factor, Householder matrix() = Q^-1; (LIN-LOGDET) logabsdet(), the combined accessors and the forward pass carry + the sum over W's factors of sum(log diag), the inverse pass its negation; plus accessor completeness over the class hierarchy, positivity of the factor diagonals by the sign lattice and the exact reversal of the Householder reflections. Equal normal forms imply equal matrices for every parameter value; an operation outside the table makes the accessor undecided (exit 2), not a violation. Numeric inverse accuracy and usability for every accepted size are value facts and NOT decided.",
+        "design_ref": "DESIGN.md 2.C11, 8.5",
+        "level_note": "Trusted: A-CFG (eps > 0), T-OPS (F.linear, @, solve_triangular, lu_solve, inverse, diag semantics; softplus/exp positive); np.tril_indices(k=-1) / triu_indices(k=1) / diag_indices index the strict lower / strict upper / diagonal entries; ORTH-REV for the meaning of the orthogonal atoms.",
+        "technique": "static abstract interpretation into a matrix-word normal form (free group with transposition) + call-graph completeness + sign lattice",
     },
 }
 
